@@ -62,7 +62,7 @@ git -C /repo worktree prune
 {
 echo "# Seeded property-breaking changes vs. the checks"
 echo
-echo "Produced by tools/seedall-par.sh ($tier tier, $N scratch workers with $T threads each) on $(date -u +%Y-%m-%dT%H:%MZ), /repo HEAD $(git -C /repo rev-parse --short HEAD)."
+echo "Produced by tools/seedall-par.sh ($tier tier, $N scratch workers with $T threads each) on $(date -u +%Y-%m-%dT%H:%MZ), against /repo commit ${head:0:7}."
 echo "Each change was written by an independent sub-agent from the property text alone, passes the repository's"
 echo "suite, and comes with a demonstration (demo.rs) that fails with it and passes without it."
 echo
